@@ -87,10 +87,11 @@ def correlationGrad (T : Transc α) (x y : List α) : α × List α :=
   let ny := dot sy sy
   let dp := dot sx sy
   if eqV nx 0 && eqV ny 0 then (0, x.map (fun _ => 0))
-  else if eqV dp 0 then (1, x.map (fun _ => 0))
+  else if eqV nx 0 || eqV ny 0 then (1, x.map (fun _ => 0))
   else
-    let dist := 1 - dp / T.sqrt (nx * ny)
-    (dist, (sx.zip sy).map (fun p => (p.1 / nx - p.2 / dp) * (1 - dist)))
+    let nrm := T.sqrt (nx * ny)
+    let c := dp / nrm
+    (1 - c, (sx.zip sy).map (fun p => p.1 * (c / nx) - p.2 / nrm))
 
 def hellingerGrad (T : Transc α) (x y : List α) : α × List α :=
   let gt := (x.zip y).map (fun p => T.sqrt (p.1 * p.2))
@@ -101,11 +102,12 @@ def hellingerGrad (T : Transc α) (x y : List α) : α × List α :=
   else if eqV lx 0 || eqV ly 0 then (1, x.map (fun _ => 0))
   else
     let dd := T.sqrt (lx * ly)
-    let dist := T.sqrt (1 - r / dd)
+    let dist := T.sqrt (maxV 0 (1 - r / dd))
     -- zero distance (proportional arguments): zero gradient instead of a division by zero
     if eqV dist 0 then (dist, x.map (fun _ => 0)) else
     let c := (ly * r) / (two * (dd * dd * dd))
-    (dist, (y.zip gt).map (fun p => (c - p.1 / (two * p.2 * dd)) / (two * dist)))
+    (dist, (y.zip gt).map (fun p =>
+      (c - (if eqV p.1 0 then 0 else p.1 / (two * p.2 * dd))) / (two * dist)))
 
 /-- `haversine_grad` (note the `+ π/2` shift of the latitude inside the function). -/
 def haversineGrad (T : Transc α) (pi eps : α) (x y : List α) : Option (α × List α) :=
